@@ -178,6 +178,7 @@ func (x *Exec) execUnOp(fr *Frame, st *State, ins *ssa.UnOp) {
 		v := x.havocValue(st, "recv", elem)
 		if ins.CommaOk {
 			ok := x.fresh("recvok", SBool)
+			x.chanRecvFacts(st, elem, v, ok)
 			fr.vals[ins] = VTuple{[]Value{v, VScalar{ok}}}
 		} else {
 			fr.vals[ins] = v
@@ -941,6 +942,7 @@ func (x *Exec) execNext(fr *Frame, st *State, ins *ssa.Next) {
 
 func (x *Exec) execSend(fr *Frame, st *State, ins *ssa.Send) {
 	ch := x.get(fr, ins.Chan).(VScalar).T
+	x.chanSendCheck(st, ins.Chan.Type().Underlying().(*types.Chan).Elem(), x.get(fr, ins.X), ins.Pos())
 	x.chanSendHook(fr, st, ch, x.get(fr, ins.X), ins.Chan.Type(), ins.Pos())
 }
 
@@ -968,8 +970,11 @@ func (x *Exec) execSelect(fr *Frame, st *State, ins *ssa.Select) {
 	for i, s := range ins.States {
 		if s.Dir == types.RecvOnly {
 			elem := s.Chan.Type().Underlying().(*types.Chan).Elem()
-			vals = append(vals, x.havocValue(st, "selrecv", elem))
+			rv := x.havocValue(st, "selrecv", elem)
+			x.chanRecvFacts(st, elem, rv, And(Eq(idx, IntLit(int64(i))), vals[1].(VScalar).T))
+			vals = append(vals, rv)
 		} else {
+			x.chanSendCheck(st, s.Chan.Type().Underlying().(*types.Chan).Elem(), x.get(fr, s.Send), s.Pos)
 			// a send case: record the send if chosen (conditional ghost update)
 			ch := x.get(fr, s.Chan).(VScalar).T
 			cnt := x.heapGet(st, "C|sendcount", ArrSort(SInt, SInt))
@@ -987,4 +992,42 @@ func derivedAddr(v ssa.Value) bool {
 		return true
 	}
 	return false
+}
+
+// channel protocols: "channel T nonnil" makes every send of a T an obligation (value != nil) and lets
+// every successful receive assume it.
+func (x *Exec) chanProto(elem types.Type) bool {
+	if x.C.ChanNonNil == nil {
+		return false
+	}
+	n := typeName(elem)
+	return x.C.ChanNonNil[n]
+}
+
+func (x *Exec) chanRecvFacts(st *State, elem types.Type, v Value, ok Term) {
+	if !x.chanProto(elem) {
+		return
+	}
+	x.assume(Implies(ok, Not(Eq(x.flatten(v)[0], IntLit(0)))))
+	if s, isS := v.(VScalar); isS {
+		x.assume(Implies(ok, Le(s.T, st.wm)))
+	}
+	if c := x.C.ChanInv[typeName(elem)]; c != nil {
+		env := &SpecEnv{x: x, st: st, vars: map[string]SVal{"v": {v, goT(elem)}}, pkg: x.typesPkg(x.C.ChanInvPkg[typeName(elem)])}
+		g := x.safeEvalBool(env, c, "channel protocol of "+typeName(elem))
+		x.assume(Implies(And(st.pc, ok), g))
+		x.trusted["channel protocol of "+typeName(elem)+": checked at every send; assumed to still hold when the value is received"] = true
+	}
+}
+
+func (x *Exec) chanSendCheck(st *State, elem types.Type, v Value, pos token.Pos) {
+	if !x.chanProto(elem) {
+		return
+	}
+	x.check(st, "chan-protocol", nil, pos, x.srcAt(pos)+": value sent is non-nil", Not(Eq(x.flatten(v)[0], IntLit(0))))
+	if c := x.C.ChanInv[typeName(elem)]; c != nil {
+		env := &SpecEnv{x: x, st: st, vars: map[string]SVal{"v": {v, goT(elem)}}, pkg: x.typesPkg(x.C.ChanInvPkg[typeName(elem)])}
+		g := x.safeEvalBool(env, c, "channel protocol of "+typeName(elem))
+		x.check(st, "chan-protocol", nil, pos, x.srcAt(pos)+": "+c.Text, g)
+	}
 }
